@@ -179,3 +179,31 @@ VARIANTS += [
     V("silent-result-reader-strict-positive", R,
       "        if n_bounds <= 0:", "        if n_bounds < 1:", "silent", ""),
 ]
+
+VARIANTS += [
+    V("result-zero-bound-dropped", R,
+      "                yield (num_to_str(data.objective_bounds[ox])\n"
+      "                       if ox in data.objective_bounds else \"\")\n"
+      "                yield (num_to_str(data.objectives[ob])",
+      "                lb = data.objective_bounds.get(ox)\n"
+      "                yield num_to_str(lb) if lb else \"\"\n"
+      "                yield (num_to_str(data.objectives[ob])",
+      "fire", "D19.1", "seed C19-csv-zero-written-as-empty: truthiness "
+      "instead of presence drops a bound of 0"),
+    V("silent-result-get-is-not-none", R,
+      "                yield (num_to_str(data.objective_bounds[ox])\n"
+      "                       if ox in data.objective_bounds else \"\")\n"
+      "                yield (num_to_str(data.objectives[ob])",
+      "                lb = data.objective_bounds.get(ox)\n"
+      "                yield num_to_str(lb) if lb is not None else \"\"\n"
+      "                yield (num_to_str(data.objectives[ob])",
+      "silent"),
+    V("silent-result-if-statement-presence", R,
+      "                yield (num_to_str(data.objectives[ob])\n"
+      "                       if ob in data.objectives else \"\")",
+      "                if ob not in data.objectives:\n"
+      "                    yield \"\"\n"
+      "                else:\n"
+      "                    yield num_to_str(data.objectives[ob])",
+      "silent"),
+]
